@@ -146,6 +146,9 @@ static const char* USYS[] = {"METRIC", "FIELD", "LAB", "PVT-M"};
 static std::string excludedKeyword(const gdeck::KwInst& kw) {
     if (kw.name == "GCONPROD" && kw.text.find("'FLD'") != std::string::npos)
         return "GCONPROD-mode-FLD";      // IGRP encodes FLD as 0 (= NONE) with exceed action 4: comes back as NONE / RATE
+    if (kw.name == "WHISTCTL")
+        return "WHISTCTL";               // handleWHISTCTL calls Well::updateProduction on every well, which turns each injector into a
+                                         // producer without control mode (separate defect, reported); not a state a simulator can be in
     return "";
 }
 
@@ -328,7 +331,8 @@ static std::string stateText(const StepState& S) {
 struct SchedCmpOpts {
     std::set<std::string> activeCtrlDiffers, notFlowing;
     const SummaryState* st = nullptr;
-    bool atRestartStep = false;
+    std::vector<std::string> rstWells, rstGroups;   // entities present in the restart file
+    const UDQState* udq = nullptr;                  // UDQ values at the time the file was written
 };
 
 static std::string kwText(const DeckKeyword& kw) {
@@ -399,7 +403,9 @@ static void cmpWell(const Well& a, const Well& b, const SchedCmpOpts& opt, Diff&
             d.real("well.prod.bhp_hist_limit", p.bhp_hist_limit, q.bhp_hist_limit);
             d.real("well.prod.thp_hist_limit", p.thp_hist_limit, q.thp_hist_limit);
         }
-        if (!ctrlFree) d.exact("well.prod.controls", p.productionControls(), q.productionControls());
+        // the GRUP bit is derived from the WGRUPCON availability when the well is built from the file, while the keyword handlers
+        // leave a stale bit behind after WGRUPCON 'NO': availability is compared above, the bit is masked here
+        if (!ctrlFree) d.exact("well.prod.controls", p.productionControls() & ~(int)Well::ProducerCMode::GRUP, q.productionControls() & ~(int)Well::ProducerCMode::GRUP);
         if (open && !ctrlFree) d.enm("well.prod.controlMode", p.controlMode, q.controlMode);
         d.enm("well.prod.whistctl_cmode", p.whistctl_cmode, q.whistctl_cmode);
         // what the simulator sees: limits evaluated against the summary state
@@ -431,7 +437,7 @@ static void cmpWell(const Well& a, const Well& b, const SchedCmpOpts& opt, Diff&
             d.real("well.inj.bhp_hist_limit", p.bhp_hist_limit, q.bhp_hist_limit);
             d.real("well.inj.thp_hist_limit", p.thp_hist_limit, q.thp_hist_limit);
         }
-        if (!ctrlFree) d.exact("well.inj.controls", p.injectionControls, q.injectionControls);
+        if (!ctrlFree) d.exact("well.inj.controls", p.injectionControls & ~(int)Well::InjectorCMode::GRUP, q.injectionControls & ~(int)Well::InjectorCMode::GRUP);
         d.enm("well.inj.injectorType", p.injectorType, q.injectorType);
         if (open && !ctrlFree) d.enm("well.inj.controlMode", p.controlMode, q.controlMode);
         if (opt.st) {
@@ -467,7 +473,7 @@ static void cmpWell(const Well& a, const Well& b, const SchedCmpOpts& opt, Diff&
         d.real("conn.CF", x.CF(), y.CF());
         d.real("conn.Kh", x.Kh(), y.Kh());
         d.real("conn.rw", x.rw(), y.rw());
-        d.real("conn.depth", x.depth(), y.depth());
+        d.real(a.isMultiSegment() ? "conn.depth.msw" : "conn.depth", x.depth(), y.depth());
         d.real("conn.skinFactor", x.skinFactor(), y.skinFactor());
     }
     if (a.isMultiSegment() && b.isMultiSegment()) {
@@ -500,10 +506,14 @@ static void cmpGroup(const Group& a, const Group& b, const SchedCmpOpts& opt, Di
     d.exact("group.insert_index", a.insert_index(), b.insert_index());
     d.str("group.parent", a.parent(), b.parent());
     {
+        // children as sets: their order inside the parent follows the order of the GRUPTREE / WELSPECS records in the original and
+        // the index order of the file in the restarted schedule; nothing reads a meaning from it
         auto wa = a.wells(), wb = b.wells();
+        std::sort(wa.begin(), wa.end()); std::sort(wb.begin(), wb.end());
         std::string sa, sb; for (auto& w : wa) sa += w + " "; for (auto& w : wb) sb += w + " ";
         d.str("group.wells", sa, sb);
         auto ga = a.groups(), gb = b.groups();
+        std::sort(ga.begin(), ga.end()); std::sort(gb.begin(), gb.end());
         sa.clear(); sb.clear(); for (auto& w : ga) sa += w + " "; for (auto& w : gb) sb += w + " ";
         d.str("group.groups", sa, sb);
     }
@@ -525,7 +535,10 @@ static void cmpGroup(const Group& a, const Group& b, const SchedCmpOpts& opt, Di
         // EXCLUDED: resv_target, guide_rate (value) and available_group_control (GCONPROD items 14, 9, 8): Group(RstGroup) does not
         // restore them (SGRP carries no slot that rst::RstGroup reads for them).
         d.enm("group.prod.guide_rate_def", p.guide_rate_def, q.guide_rate_def);
-        d.exact("group.prod.controls", p.production_controls, q.production_controls);
+        // with exceed action NONE the keyword handler registers the active mode only, the file nevertheless carries all four limits
+        // and Group(RstGroup) sets a bit for each: without an action the extra bits have no effect, so the sets are compared only
+        // when an action makes them matter
+        if (p.group_limit_action.allRates != Group::ExceedAction::NONE) d.exact("group.prod.controls", p.production_controls, q.production_controls);
         if (opt.st) {
             try {
                 const auto ca = a.productionControls(*opt.st), cb = b.productionControls(*opt.st);
@@ -579,7 +592,7 @@ static std::string tokensText(const UDQDefine& def) {
     return s;
 }
 
-static void cmpUDQ(const Schedule& A, const Schedule& B, size_t k, Diff& d) {
+static void cmpUDQ(const Schedule& A, const Schedule& B, size_t k, const SchedCmpOpts& opt, Diff& d) {
     const auto& ua = A.getUDQConfig(k);
     const auto& ub = B.getUDQConfig(k);
     d.ctx = "UDQ";
@@ -599,7 +612,8 @@ static void cmpUDQ(const Schedule& A, const Schedule& B, size_t k, Diff& d) {
             const auto& x = ia[i].get<UDQDefine>();
             const auto& y = ib[i].get<UDQDefine>();
             d.str("udq.define.tokens", tokensText(x), tokensText(y));
-            d.enm("udq.define.update", x.status().first, y.status().first);
+            // EXCLUDED: UPDATE NEXT.  IUDQ item 1 is written as 2 for ON and 0 otherwise, NEXT comes back as OFF.
+            d.exact("udq.define.update_on", x.status().first == UDQUpdate::ON, y.status().first == UDQUpdate::ON);
         } else if (!da && !db) {
             const auto& x = ia[i].get<UDQAssign>();
             const auto& y = ib[i].get<UDQAssign>();
@@ -607,12 +621,18 @@ static void cmpUDQ(const Schedule& A, const Schedule& B, size_t k, Diff& d) {
             try {
                 UDQSet sa = UDQSet::scalar("x", 0.0), sb = sa;
                 const auto vt = x.var_type();
-                if (vt == UDQVarType::WELL_VAR) { sa = x.eval(A.wellNames(k)); sb = y.eval(B.wellNames(k)); }
-                else if (vt == UDQVarType::GROUP_VAR) { sa = x.eval(A.groupNames(k)); sb = y.eval(B.groupNames(k)); }
+                // An assignment is carried as the values it gave to the wells / groups that existed when the file was written (it is
+                // evaluated once, when it is entered, and never for a well defined later): compare it on that set.
+                if (vt == UDQVarType::WELL_VAR) { sa = x.eval(opt.rstWells); sb = y.eval(opt.rstWells); }
+                else if (vt == UDQVarType::GROUP_VAR) { sa = x.eval(opt.rstGroups); sb = y.eval(opt.rstGroups); }
                 else if (vt == UDQVarType::FIELD_VAR || vt == UDQVarType::SCALAR) { sa = x.eval(); sb = y.eval(); }
                 else continue;
                 d.exact("udq.assign.size", sa.size(), sb.size());
                 for (size_t q = 0; q < sa.size() && q < sb.size(); ++q) {
+                    // ... and only where the run had assigned a value (a well defined after the ASSIGN has none although the original
+                    // assignment names all wells)
+                    if (opt.udq && vt == UDQVarType::WELL_VAR && !(opt.udq->has_well_var(opt.rstWells[q], x.keyword()) && opt.udq->get_well_var(opt.rstWells[q], x.keyword()) != opt.udq->undefined_value())) continue;
+                    if (opt.udq && vt == UDQVarType::GROUP_VAR && !(opt.udq->has_group_var(opt.rstGroups[q], x.keyword()) && opt.udq->get_group_var(opt.rstGroups[q], x.keyword()) != opt.udq->undefined_value())) continue;
                     d.exact("udq.assign.defined", sa[q].defined(), sb[q].defined());
                     if (sa[q].defined() && sb[q].defined()) d.exact("udq.assign.value", sa[q].get(), sb[q].get());
                 }
@@ -671,14 +691,17 @@ static void cmpWlists(const Schedule& A, const Schedule& B, size_t k, Diff& d) {
     const auto& wa = A[k].wlist_manager();
     const auto& wb = B[k].wlist_manager();
     d.ctx = "WLIST";
-    d.exact("wlist.count", wa.WListSize(), wb.WListSize());
+    // EXCLUDED: well lists without wells (after WLIST ... DEL / MOV): IWLS / ZWLS store the lists per member well, an empty list
+    // leaves no trace in the file.  The non-empty lists are found through their members below.
     // the lists each well belongs to and the content of each list
     std::set<std::string> names;
     for (const auto& w : A.wellNames(k)) {
         d.ctx = "WLIST of well " + w;
-        std::string sa, sb;
-        if (wa.hasWList(w)) for (const auto& l : wa.getWListNames(w)) { sa += l + " "; names.insert(l); }
-        if (wb.hasWList(w)) for (const auto& l : wb.getWListNames(w)) sb += l + " ";
+        // which lists a well is a member of (a set: the order of this per-well index carries no meaning)
+        std::set<std::string> la, lb;
+        if (wa.hasWList(w)) for (const auto& l : wa.getWListNames(w)) { la.insert(l); names.insert(l); }
+        if (wb.hasWList(w)) for (const auto& l : wb.getWListNames(w)) lb.insert(l);
+        std::string sa, sb; for (auto& l : la) sa += l + " "; for (auto& l : lb) sb += l + " ";
         d.str("wlist.of_well", sa, sb);
     }
     for (const auto& l : names) {
@@ -722,6 +745,7 @@ static void cmpNetwork(const Schedule& A, const Schedule& B, size_t k, Diff& d) 
 
 static void cmpSchedule(const Schedule& A, const Schedule& B, size_t k, const SchedCmpOpts& opt, Diff& d) {
     d.ctx = "schedule";
+    d.exact("step.start_time", (long long)TimeService::to_time_t(A[k].start_time()), (long long)TimeService::to_time_t(B[k].start_time()));
     {
         std::string sa, sb;
         for (auto& w : A.wellNames(k)) sa += w + " ";
@@ -741,7 +765,7 @@ static void cmpSchedule(const Schedule& A, const Schedule& B, size_t k, const Sc
         cmpGroup(A.getGroup(gn, k), B.getGroup(gn, k), opt, d);
     }
     cmpWlists(A, B, k, d);
-    cmpUDQ(A, B, k, d);
+    cmpUDQ(A, B, k, opt, d);
     cmpActions(A, B, k, d);
     cmpNetwork(A, B, k, d);
 }
@@ -810,13 +834,49 @@ int main(int argc, char** argv) {
             for (int k = 0; k < m.nz; ++k) for (int j = 0; j < m.ny; ++j) for (int i = 0; i < m.nx; ++i)
                 if (!used.count({i + 1, j + 1}) && rng.chance(0.15)) m.actnum[(size_t)k * m.nx * m.ny + (size_t)j * m.nx + i] = 0;
         }
+        // COMPSEGS of the generator measures the perforation range from 0 while its WELSEGS uses absolute lengths from 1990: every
+        // connection would sit on the top segment.  Shift the ranges so that the connections are spread over the segments; with
+        // shift 1995 the centre of a perforation coincides with a segment node, otherwise it lies between two nodes.
+        const double segShift = 1990.0 + (rng.chance(0.6) ? 5.0 : 2.5 * (double)rng.below(4));
+        for (auto& st : m.steps) for (auto& kw : st.kws) if (kw.name == "COMPSEGS") {
+            std::istringstream is(kw.text); std::string line, out; int ln = 0;
+            while (std::getline(is, line)) {
+                int i, j, k, br; double a, b;
+                if (ln >= 2 && sscanf(line.c_str(), " %d %d %d %d %lf %lf", &i, &j, &k, &br, &a, &b) == 6) {
+                    std::ostringstream o; o << " " << i << " " << j << " " << k << " " << br << " " << gdeck::fmtd(a + segShift) << " " << gdeck::fmtd(b + segShift) << " /";
+                    line = o.str();
+                }
+                out += line + "\n"; ++ln;
+            }
+            kw.text = out;
+        }
+        // The generator writes a two line ACTIONX condition as ONE record ("FOPR > 100 AND <newline> WWCT 'W*' < 0.9 /").  ACTIONX wants
+        // one record per comparison; the library accepts the run-on record for evaluation but keeps only its first comparison in
+        // the per-condition list the restart writer uses.  Terminate each comparison properly.
+        for (auto& st : m.steps) for (auto& kw : st.kws) if (kw.name == "ACTIONX") {
+            for (const char* op : {" AND\n", " OR\n"}) { size_t p = 0; const std::string o = op; while ((p = kw.text.find(o, p)) != std::string::npos) { kw.text.replace(p, o.size(), o.substr(0, o.size() - 1) + " /\n"); p += o.size() + 2; } }
+        }
+        // a well that is declared and completed but not yet given any control (common in real decks, never produced by the generator)
+        if (!m.wells.empty() && rng.chance(0.15)) {
+            const auto& w0 = m.wells[rng.below(m.wells.size())];
+            if (!w0.ks.empty()) {
+                const size_t at = rng.below(m.steps.size());
+                std::ostringstream o;
+                o << "WELSPECS\n 'WBARE' '" << w0.group << "' " << w0.i << " " << w0.j << " 1* '" << (rng.chance(0.7) ? "OIL" : "WATER") << "' /\n/\nCOMPDAT\n 'WBARE' " << w0.i << " " << w0.j << " " << w0.ks.front() << " " << w0.ks.front() << " 'OPEN' 1* 1* 0.3 /\n/\n";
+                // must come after the definition of the group's first well in the same step: append
+                m.steps[at].kws.push_back({"WELSPECS", o.str()});
+                rep.count("cases_with_uncontrolled_well");
+            }
+        }
         for (auto& st : m.steps) {
             std::vector<gdeck::KwInst> keep;
             for (auto& kw : st.kws) { const std::string why = excludedKeyword(kw); if (!why.empty()) rep.cover("excluded_keyword", why); else keep.push_back(kw); }
             st.kws = keep;
         }
         const std::string base = "C05CASE";
-        const std::string text = m.staticPart() + "SCHEDULE\n" + m.scheduleText();
+        // the generator's WELLDIMS leaves item 11 (well lists per well) at its default 1 although it puts wells into up to three lists
+        auto staticPart = [&]() { std::string sp = m.staticPart(); const std::string wd = "WELLDIMS\n 30 20 15 30 /"; auto p = sp.find(wd); if (p != std::string::npos) sp.replace(p, wd.size(), "WELLDIMS\n 30 20 15 30 6* 8 8 /"); return sp; };
+        const std::string text = staticPart() + "SCHEDULE\n" + m.scheduleText();
         const uint64_t caseHash = vh::fnv(text);
         Built F;
         try {
@@ -1072,9 +1132,9 @@ int main(int argc, char** argv) {
                 // must start at the restart date (ScheduleDeck puts its first keyword into the block of the restart step), so only the
                 // steps n.. are given, preceded by the tables the skipped part had defined (SKIPREST keeps exactly those too)
                 std::string t2;
-                if (skiprest) t2 = m.staticPart() + "SCHEDULE\nSKIPREST\n" + m.scheduleText();
+                if (skiprest) t2 = staticPart() + "SCHEDULE\nSKIPREST\n" + m.scheduleText();
                 else {
-                    t2 = m.staticPart() + "SCHEDULE\n";
+                    t2 = staticPart() + "SCHEDULE\n";
                     for (size_t q = 0; q < (size_t)n && q < m.steps.size(); ++q) for (auto& kw : m.steps[q].kws) if (kw.name == "VFPPROD") t2 += kw.text;
                     for (size_t q = n; q < m.steps.size(); ++q) { for (auto& kw : m.steps[q].kws) t2 += kw.text; t2 += m.steps[q].timeKw; }
                 }
@@ -1091,7 +1151,11 @@ int main(int argc, char** argv) {
                     rst = std::make_unique<RestartIO::RstState>(RestartIO::RstState::load(std::move(rst_view), es2.runspec(), parser));
                     rsched = std::make_unique<Schedule>(deck2, es2, python, false, false, true, std::nullopt, rst.get());
                 } catch (const std::exception& e) {
-                    report("sched:restart-construction-throws", tag + "building the restarted schedule threw: " + e.what(), trace.str() + text);
+                    const std::string msg = e.what();
+                    // the restart date is taken from year / month / day of INTEHEAD only: a report step that is not at midnight cannot be
+                    // found again in the schedule section
+                    const bool timeOfDay = std::fmod(sched.seconds(n), 86400.0) != 0.0 && msg.find("SKIPREST") != std::string::npos;
+                    report(timeOfDay ? "sched:restart-time-of-day-lost" : "sched:restart-construction-throws:" + errClass(msg), tag + "building the restarted schedule threw: " + msg, trace.str() + "--- deck ---\n" + text + "--- restart deck ---\n" + t2);
                     continue;
                 }
                 rep.count("restarted_schedules");
@@ -1157,6 +1221,7 @@ int main(int argc, char** argv) {
                 {
                     SchedCmpOpts so;
                     so.activeCtrlDiffers = S.activeCtrlDiffers; so.notFlowing = S.notFlowing; so.st = &st;
+                    so.rstWells = sched.wellNames(simStep); so.rstGroups = sched.groupNames(simStep); so.udq = &udq_state;
                     Diff d;
                     if (rsched->size() != sched.size()) { d.ctx = tag; d.add("sched:size", std::to_string(sched.size()) + " vs " + std::to_string(rsched->size())); }
                     else for (size_t k = n; k < sched.size(); ++k) {
@@ -1170,6 +1235,8 @@ int main(int argc, char** argv) {
                     }
                     nSched += d.ncmp;
                     rep.count("schedule_field_comparisons", d.ncmp);
+                    // one defect, one key: without SKIPREST the lost time of day shows as shifted report step times
+                    if (std::fmod(sched.seconds(n), 86400.0) != 0.0) for (auto& it : d.items) if (it.first == "sched:step.start_time" || it.first == "sched:size") it.first = "sched:restart-time-of-day-lost";
                     std::set<std::string> seen;
                     for (auto& it : d.items) if (seen.insert(it.first).second) report(it.first, it.second, trace.str() + "--- all differences ---\n" + [&] { std::string s; int c = 0; for (auto& q : d.items) if (c++ < 40) s += q.second + "\n"; return s; }() + "--- deck ---\n" + text);
                 }
